@@ -43,6 +43,14 @@ structure InvA (c : Cfg) (s : State) : Prop where
   fin_loc : ∀ id, s.fin id = true ↔ s.loc id = .done
   cur_run : ∀ h, (s.cur h).isSome = true ↔ s.hpc h = .run
   batch_pc : ∀ h, s.batch h ≠ [] → s.hpc h = .gp ∨ s.hpc h = .inv ∨ s.hpc h = .run
+  fresh : ∀ h, s.nextH ≤ h → s.hpc h = .none ∧ s.queue h = [] ∧ s.batch h = [] ∧ s.cur h = none
+  enq_lt : ∀ t id h k, s.tpc t = .enq id h k → h < s.nextH
+  thr_lt : ∀ t h, s.thr t = some h → h < s.nextH
+  cpu_lt : ∀ cpu h, s.percpu cpu = some h → h < s.nextH
+  dflt_lt : ∀ h, s.dflt = some h → h < s.nextH
+  list_lt : ∀ h, h ∈ s.list → h < s.nextH
+  oplock_lt : ∀ t cpu h, s.tpc t = .opLock (.setCpu cpu (some h)) → h < s.nextH
+  opdo_lt : ∀ t cpu h, s.tpc t = .opDo (.setCpu cpu (some h)) → h < s.nextH
 
 theorem mem_of_head? {l : List Nat} {a : Nat} (h : l.head? = some a) : a ∈ l := by
   cases l <;> simp_all
@@ -61,13 +69,13 @@ theorem invA_init (c) : InvA c init := by
 
 set_option hygiene false in
 macro "a_tac" : tactic => `(tactic| (
-  obtain ⟨h1, h2, h3, h4, h5, h6, h7, h8, h9, h10a, h10b, h10c, h10d, h10e, h10f, h11, h12, h13, h14, h15⟩ := h
+  obtain ⟨h1, h2, h3, h4, h5, h6, h7, h8, h9, h10a, h10b, h10c, h10d, h10e, h10f, h11, h12, h13, h14, h15, h16, h17, h18, h19, h20, h21, h22, h23⟩ := h
   simp only [step] at st
   (repeat' split at st)
   all_goals (first | (simp at st; done) | skip)
   all_goals (simp only [Option.some.injEq] at st; subst st)
-  all_goals (constructor <;> simp only [upd, lockS, unlockS, newHelper, relocate, K.cont] at * <;>
-    grind [TPc.pendId, GK.id?, Loc.invoked, → mem_of_head?, → mem_of_mem_tail', nodup_tail', head?_notin_tail, → ne_nil_of_head?, mem_tail_or_head])))
+  all_goals (constructor <;> first | assumption | (simp only [upd, lockS, unlockS, newHelper, relocate, K.cont, SetObl, OpObl] at * <;>
+    grind [TPc.pendId, GK.id?, Loc.invoked, → mem_of_head?, → mem_of_mem_tail', nodup_tail', head?_notin_tail, → ne_nil_of_head?, mem_tail_or_head]))))
 
 theorem inva_rlock (c : Cfg) {s s' : State} (h : InvA c s) (t : _)
     (st : step c s (.rlock t) = some s') : InvA c s' := by
@@ -157,6 +165,7 @@ theorem inva_opLock (c : Cfg) {s s' : State} (h : InvA c s) (t : _)
     (st : step c s (.opLock t) = some s') : InvA c s' := by
   a_tac
 
+set_option maxHeartbeats 1600000 in
 theorem inva_opDo (c : Cfg) {s s' : State} (h : InvA c s) (t : _)
     (st : step c s (.opDo t) = some s') : InvA c s' := by
   a_tac
